@@ -157,7 +157,13 @@ func (x *Exec) validOnLoad(v Term, t types.Type, st *State) {
 }
 
 func (x *Exec) store(l *Loc, v Value, st *State) {
+	if lv, ok := v.(*Loc); ok && lv.Kind == "heap" && len(lv.Path) == 0 {
+		v = lv.Ptr
+	}
 	if l.Kind == "cell" && len(l.Path) == 0 {
+		if t, ok := v.(Term); ok && !x.pure {
+			v = x.u.NameTerm(t, cellName(l.Key))
+		}
 		st.cells[l.Key] = v
 		return
 	}
@@ -181,6 +187,9 @@ func (x *Exec) store(l *Loc, v Value, st *State) {
 	}
 	upd := x.setPath(base, l.Root, l.Path, nv)
 	if l.Kind == "cell" {
+		if !x.pure {
+			upd = x.u.NameTerm(upd, cellName(l.Key))
+		}
 		st.cells[l.Key] = upd
 	} else {
 		st.SetHeap(hn, Store(st.Heap(hn, hs), l.Ptr, upd))
@@ -239,6 +248,15 @@ func (x *Exec) newBase(st *State) Term {
 // Instructions
 
 func (x *Exec) step(in ssa.Instruction, st *State) {
+	x.step1(in, st)
+	if v, ok := in.(ssa.Value); ok && !x.pure {
+		if t, ok := x.regs[v].(Term); ok && len(t.S) > 160 {
+			x.regs[v] = x.u.NameTerm(t, "t")
+		}
+	}
+}
+
+func (x *Exec) step1(in ssa.Instruction, st *State) {
 	w := x.u.W
 	switch in := in.(type) {
 	case *ssa.DebugRef:
@@ -388,10 +406,18 @@ func (x *Exec) isCell(a *ssa.Alloc) bool {
 	return v
 }
 
-func forallInt(v string, lo, hi Term, body func(i Term) Term) Term {
+func forallInt(v string, lo, hi Term, body func(i Term) Term, pats ...func(i Term) Term) Term {
 	i := Term{v + "!q", SInt}
 	b := body(i)
-	return Term{fmt.Sprintf("(forall ((%s Int)) (=> (and (<= %s %s) (< %s %s)) %s))", i.S, lo.S, i.S, i.S, hi.S, b.S), SBool}
+	inner := fmt.Sprintf("(=> (and (<= %s %s) (< %s %s)) %s)", lo.S, i.S, i.S, hi.S, b.S)
+	if len(pats) > 0 {
+		ps := ""
+		for _, p := range pats {
+			ps += fmt.Sprintf(" :pattern (%s)", p(i).S)
+		}
+		inner = fmt.Sprintf("(! %s%s)", inner, ps)
+	}
+	return Term{fmt.Sprintf("(forall ((%s Int)) %s)", i.S, inner), SBool}
 }
 
 // locOf turns a pointer value into a location.
@@ -733,8 +759,14 @@ func (x *Exec) makeSlice(in *ssa.MakeSlice, st *State) Value {
 	hn, hs := x.heapOf(et)
 	h := st.Heap(hn, hs)
 	z := x.u.W.Zero(et)
-	x.assume(forallInt("i", IntLit(0), c, func(i Term) Term { return Eq(Select(h, MkPtr(base, i)), z) }))
-	return MkSlice(MkPtr(base, IntLit(0)), l, c)
+	res := MkSlice(MkPtr(base, IntLit(0)), l, c)
+	if !x.pure {
+		rs := x.u.W.Fresh("mk", SSlice)
+		x.assume(Eq(rs, res))
+		res = rs
+	}
+	x.assume(forallInt("i", IntLit(0), c, func(i Term) Term { return Eq(Select(h, Elem(res, i)), z) }, func(i Term) Term { return Elem(res, i) }))
+	return res
 }
 
 func (x *Exec) sliceOp(in *ssa.Slice, st *State) Value {
@@ -829,8 +861,8 @@ func (x *Exec) appendOp(s, t Term, st *State, et types.Type, single *Term) Term 
 	h := st.Heap(hn, hs)
 	// fresh case: old elements copied (assumption about fresh memory)
 	x.assume(Implies(Not(fits), forallInt("i", IntLit(0), n, func(i Term) Term {
-		return Eq(Select(h, MkPtr(base, i)), Select(h, Elem(s, i)))
-	})))
+		return Eq(Select(h, Elem(res, i)), Select(h, Elem(s, i)))
+	}, func(i Term) Term { return Elem(res, i) }, func(i Term) Term { return Elem(s, i) })))
 	// in-place writes must be allowed by the frame
 	if !x.pure && x.frame != nil && !x.frame.any && !x.freshBases[PBase(SlPtr(s)).S] {
 		p := Elem(s, n)
@@ -852,7 +884,7 @@ func (x *Exec) appendOp(s, t Term, st *State, et types.Type, single *Term) Term 
 	nh := w.Fresh(hn+"@app", hs)
 	x.assume(forallInt("i", IntLit(0), tl, func(i Term) Term {
 		return Eq(Select(nh, Elem(res, Add(n, i))), Select(h, Elem(t, i)))
-	}))
+	}, func(i Term) Term { return Elem(t, i) }))
 	p := Term{"p!a", SPtr}
 	inRange := And(Eq(PBase(p), PBase(SlPtr(res))), Ge(PIdx(p), Add(PIdx(SlPtr(res)), n)), Lt(PIdx(p), Add(PIdx(SlPtr(res)), newLen)))
 	x.assume(Term{fmt.Sprintf("(forall ((p!a Ptr)) (! (=> (not %s) (= (select %s p!a) (select %s p!a))) :pattern ((select %s p!a))))", inRange.S, nh.S, h.S, nh.S), SBool})
